@@ -26,6 +26,20 @@ def goodBlocks : List (Int × Int) → Bool
 
 def toNatBlocks (bs : List (Int × Int)) : List Blk := bs.map fun b => (b.1.toNat, b.2.toNat)
 
+/-- Failure diagnosis used ONLY to keep the matcher of the known finding F-C14a narrow: `some line'` when the
+    answer is a 12-column line whose block-start column holds (possibly negative) integers; `line'` is the
+    same line with `off` added to every block start. -/
+def addToStarts (line : String) (off : Nat) : Option String :=
+  match line.splitOn "\t" with
+  | [c1, c2, c3, c4, c5, c6, c7, c8, c9, c10, c11, c12] =>
+    let parts := (c12.splitOn ",").map String.toInt?
+    if parts.all Option.isSome then
+      let vals := parts.filterMap id
+      let fixed := vals.map (· + (off : Int))
+      some ("\t".intercalate [c1, c2, c3, c4, c5, c6, c7, c8, c9, c10, c11, ",".intercalate (fixed.map toString)])
+    else none
+  | _ => none
+
 def ops : List (String × Op) := [
   ("bed12", do
       let kind ← tok
@@ -64,7 +78,14 @@ def ops : List (String × Op) := [
         chrom := optName seqName, name := name, score := score, rgb := (r, g, b), off := off,
         mayRefuse := mode = "chunk" && win.isNone }
       match ans with
-      | ["ok", line] => pure (verdict (okBed12 w (some line.toList)))
+      | ["ok", line] =>
+        if okBed12 w (some line.toList) then pure "pass"
+        else match addToStarts line off with
+          | some line' =>
+            if off > 0 && okBed12 w (some line'.toList) then
+              pure "fail F-C14a-shape (only the block starts are wrong: they are relative to the chromosome start; adding the chunk start repairs the line)"
+            else pure "fail"
+          | none => pure "fail"
       | "err" :: _ => pure (verdict (okBed12 w none))
       | "err!" :: _ => pure (verdict (okBed12 w none))
       | _ => pure "fail unreadable-answer")
